@@ -182,7 +182,8 @@ impl Space for VerLists {
         for k in 0..3 {
             let off = 32 * k;
             let next = NEXTS[d[k] as usize];
-            let vals: Vec<u64> = if need { vec![1, 0xffff, 1, hs as u64, next] } else { vec![1, 0, 2 + k as u64, 0xffff, 7, hs as u64, next] };
+            let cnt = if k % 2 == 0 { 1 } else { 0xffff };
+            let vals: Vec<u64> = if need { vec![1, cnt, 1, hs as u64, next] } else { vec![1, 0, 5 + k as u64, cnt, 7, hs as u64, next] };
             let rec = encode(if need { Kind::Verneed } else { Kind::Verdef }, enc, &vals, 0);
             b[off..off + hs].copy_from_slice(&rec);
             let an = NEXTS[d[3] as usize];
@@ -194,8 +195,9 @@ impl Space for VerLists {
         let r = timed(out, if need { "VerNeedIterator" } else { "VerDefIterator" }, || {
             let mut items = 0u64;
             let mut worst_aux = 0u64;
+            let mut over_cnt = 0u64;
             if need {
-                for (_, ai) in VerNeedIterator::new(e, class, count, 0, &b) {
+                for (vn, ai) in VerNeedIterator::new(e, class, count, 0, &b) {
                     items += 1;
                     let mut n = 0u64;
                     for _ in ai {
@@ -203,6 +205,9 @@ impl Space for VerLists {
                         if n > cap + 2 {
                             break;
                         }
+                    }
+                    if n > vn.vn_cnt as u64 {
+                        over_cnt += 1;
                     }
                     worst_aux = worst_aux.max(n);
                     if items > cap + 2 {
@@ -210,7 +215,7 @@ impl Space for VerLists {
                     }
                 }
             } else {
-                for (_, ai) in VerDefIterator::new(e, class, count, 0, &b) {
+                for (vd, ai) in VerDefIterator::new(e, class, count, 0, &b) {
                     items += 1;
                     let mut n = 0u64;
                     for _ in ai {
@@ -219,16 +224,22 @@ impl Space for VerLists {
                             break;
                         }
                     }
+                    if n > vd.vd_cnt as u64 {
+                        over_cnt += 1;
+                    }
                     worst_aux = worst_aux.max(n);
                     if items > cap + 2 {
                         break;
                     }
                 }
             }
-            (items, worst_aux)
+            (items, worst_aux, over_cnt)
         });
-        if let Some((items, aux)) = r {
+        if let Some((items, aux, over_cnt)) = r {
             let which = if need { "VerNeedIterator" } else { "VerDefIterator" };
+            if over_cnt > 0 {
+                out.violate(format!("count-exceeded:{which} aux list"), format!("{over_cnt} record(s) yielded more aux entries than their declared vd_cnt/vn_cnt"));
+            }
             if items > count {
                 out.violate(format!("count-exceeded:{which}"), format!("{items} records from a declared count of {count}"));
             }
